@@ -311,7 +311,13 @@ func (s *State) evalInternal(node any) object.Object { //nolint:funlen,gocognit,
 		if f.Type() == object.ERROR {
 			return f
 		}
-		args, oerr := s.evalExpressions(node.Arguments)
+		var keepRef func(int) bool
+		if f.Type() == object.EXTENSION {
+			// Extensions declaring an argument as ANY (e.g. type()) get to see references; everything else gets values.
+			argTypes := f.(object.Extension).ArgTypes
+			keepRef = func(i int) bool { return i < len(argTypes) && argTypes[i] == object.ANY }
+		}
+		args, oerr := s.evalExpressions(node.Arguments, keepRef)
 		if oerr != nil {
 			return *oerr
 		}
@@ -321,12 +327,9 @@ func (s *State) evalInternal(node any) object.Object { //nolint:funlen,gocognit,
 		name := node.Function.Value().Literal()
 		return s.applyFunction(name, f, args)
 	case *ast.ArrayLiteral:
-		elements, oerr := s.evalExpressions(node.Elements)
+		elements, oerr := s.evalExpressions(node.Elements, nil) // arrays hold values, not references to outer variables.
 		if oerr != nil {
 			return *oerr
-		}
-		for i, e := range elements {
-			elements[i] = object.Value(e) // arrays hold values, not references to outer variables.
 		}
 		return object.NewArray(elements)
 	case *ast.MapLiteral:
@@ -861,15 +864,21 @@ func (s *State) extendFunctionEnv(
 	return env, newBody, nil
 }
 
-func (s *State) evalExpressions(exps []ast.Node) ([]object.Object, *object.Error) {
+// Evaluates left to right. Each result is dereferenced as soon as it is evaluated (a later expression in
+// the list may modify the variable an earlier one referred to), except where keepRef(i) says otherwise.
+func (s *State) evalExpressions(exps []ast.Node, keepRef func(i int) bool) ([]object.Object, *object.Error) {
 	result := object.MakeObjectSlice(len(exps)) // not that this one can ever be huge but, for consistency.
-	for _, e := range exps {
+	for i, e := range exps {
 		evaluated := s.evalInternal(e)
 		if rt := evaluated.Type(); rt == object.ERROR {
 			oerr := evaluated.(object.Error)
 			return nil, &oerr
 		}
-		result = append(result, object.CopyRegister(evaluated))
+		if keepRef != nil && keepRef(i) {
+			result = append(result, object.CopyRegister(evaluated))
+		} else {
+			result = append(result, object.Value(evaluated))
+		}
 	}
 	return result, nil
 }
